@@ -61,7 +61,12 @@ pub struct SimBody {
     pub polls_after_end: u32,
     end_hint: bool,
     name: &'static str,
+    consec_pending: u32,
 }
+
+/// No seam returns Pending more than this many times in a row (keeps replays of exhausted tapes,
+/// where every draw is 0, from looking like a livelock of the code under test).
+pub const MAX_CONSEC_PENDING: u32 = 6;
 
 impl SimBody {
     pub fn new(sim: &Sim, name: &'static str, evs: Vec<Ev>, pending_pct: u64, end_hint: bool) -> SimBody {
@@ -73,6 +78,7 @@ impl SimBody {
             polls_after_end: 0,
             end_hint,
             name,
+            consec_pending: 0,
         }
     }
 }
@@ -102,12 +108,14 @@ impl Body for SimBody {
             this.sim.ev(|| format!("body[{}]: stalls forever", this.name));
             return Poll::Pending;
         }
-        if this.pending_pct > 0 && this.sim.chance(this.pending_pct, 100) {
+        if this.pending_pct > 0 && this.consec_pending < MAX_CONSEC_PENDING && this.sim.chance(this.pending_pct, 100) {
+            this.consec_pending += 1;
             this.sim.fault("body-pending");
             this.sim.ev(|| format!("body[{}]: Pending", this.name));
             cx.waker().wake_by_ref();
             return Poll::Pending;
         }
+        this.consec_pending = 0;
         match this.evs.pop_front() {
             None => {
                 this.ended = true;
@@ -155,6 +163,7 @@ pub struct SimSource<T> {
     pending_pct: u64,
     done: bool,
     pub polls_after_done: u32,
+    consec_pending: u32,
 }
 
 impl<T> SimSource<T> {
@@ -165,6 +174,7 @@ impl<T> SimSource<T> {
             pending_pct,
             done: false,
             polls_after_done: 0,
+            consec_pending: 0,
         }
     }
 }
@@ -184,12 +194,14 @@ impl<T: Unpin> Stream for SimSource<T> {
             }
             return Poll::Ready(None);
         }
-        if this.pending_pct > 0 && this.sim.chance(this.pending_pct, 100) {
+        if this.pending_pct > 0 && this.consec_pending < MAX_CONSEC_PENDING && this.sim.chance(this.pending_pct, 100) {
+            this.consec_pending += 1;
             this.sim.fault("source-pending");
             this.sim.ev(|| "source: Pending".to_string());
             cx.waker().wake_by_ref();
             return Poll::Pending;
         }
+        this.consec_pending = 0;
         match this.items.pop_front() {
             None => {
                 this.done = true;
@@ -287,11 +299,12 @@ pub struct MsgSource<T> {
     pending_pct: u64,
     done: bool,
     polls_after_done: u32,
+    consec_pending: u32,
 }
 
 impl<T> MsgSource<T> {
     pub fn new(sim: &Sim, items: Vec<T>, pending_pct: u64) -> Self {
-        MsgSource { sim: sim.clone(), items: items.into(), pending_pct, done: false, polls_after_done: 0 }
+        MsgSource { sim: sim.clone(), items: items.into(), pending_pct, done: false, polls_after_done: 0, consec_pending: 0 }
     }
 }
 
@@ -307,11 +320,13 @@ impl<T: Unpin> Stream for MsgSource<T> {
             }
             return Poll::Ready(None);
         }
-        if this.pending_pct > 0 && this.sim.chance(this.pending_pct, 100) {
+        if this.pending_pct > 0 && this.consec_pending < MAX_CONSEC_PENDING && this.sim.chance(this.pending_pct, 100) {
+            this.consec_pending += 1;
             this.sim.fault("source-pending");
             cx.waker().wake_by_ref();
             return Poll::Pending;
         }
+        this.consec_pending = 0;
         match this.items.pop_front() {
             None => {
                 this.done = true;
